@@ -170,13 +170,13 @@ Print Assumptions C06_overlay_handle_transparent.
 
 (* ---- 5. copy-up keeps the bytes and the mtime (MemMapFs on both sides) ---- *)
 (* the two predicates of the statements below, spelled out.  copy_up_ready: the overlay lacks the
-   name and either (A) has the directory part of the name, or (B) lacks it too but has ITS parent
+   name and either (A) has the directory part of the name (copy_dir name, see C06_copy_dir_meaning), or (B) lacks it too but has ITS parent
    entry (copyFile then creates one directory level; e.g. the overlay holds only "/" and the file
    is /d/f).  parent_key x is the key MemMapFs.registerWithParent looks up for a node called x.
    LF nn g s d mt: in s the path nn names node g, a regular file with bytes d (and mtime mt). *)
 Theorem C06_copy_up_ready_meaning : forall s name,
   copy_up_ready s name <->
-  let dk := normalize_path (path_dir name) in
+  let dk := normalize_path (copy_dir name) in
   let nn := normalize_path name in
   ((exists d dn, lookup s dk = Some d /\ get_node s d = Some dn) /\
    lookup s nn = None /\ parent_key nn <> nn /\
@@ -187,6 +187,13 @@ Theorem C06_copy_up_ready_meaning : forall s name,
    lookup s nn = None /\ parent_key nn = dk /\ dk <> nn).
 Proof. exact copy_up_ready_meaning. Qed.
 Print Assumptions C06_copy_up_ready_meaning.
+
+(* the directory copyFile makes sure of: filepath.Dir(name), or — copyfile_cleans_name = 1, read from
+   unionFile.go on every run — filepath.Dir of the cleaned name; the copy-up theorems hold for either *)
+Theorem C06_copy_dir_meaning : forall name,
+  copy_dir name = if Z.eqb copyfile_cleans_name 1 then path_dir (clean name) else path_dir name.
+Proof. exact copy_dir_meaning. Qed.
+Print Assumptions C06_copy_dir_meaning.
 
 Theorem C06_LF_meaning : forall nn g s d mt,
   LF nn g s d mt <->
@@ -239,7 +246,9 @@ Print Assumptions C06_write_read_back_partial.
 (* PARTIAL.  Full statement: every failed call leaves the union view unchanged.  Proved, for
    arbitrary inner filesystems: the refusals decided by CopyOnWriteFs itself — Rename of a name only
    the base has (EPERM), Remove/RemoveAll when the overlay's own call fails (the union call fails,
-   e.g. EPERM for a base-only name), Mkdir of a directory the base has (EEXIST) — make no inner
+   e.g. EPERM for a base-only name), Mkdir of ANY name the union's own Stat finds (in the overlay, or
+   in the base when the overlay says "does not exist"; directory or file: a PathError wrapping
+   EEXIST, as copyOnWriteFs.go does since cow_mkdir_checks_union = 1) — make no inner
    call except Stat (and the overlay's own failed Remove), change no handle, and hence change
    neither view, given only that Stat changes nothing observable and a FAILED overlay call leaves
    the overlay's view as it was.  Missing: failures after a successful copy-up (the overlay has
@@ -256,13 +265,13 @@ Theorem C06_failed_call_view_unchanged_partial :
   (forall o p er, o = Remove p \/ o = RemoveAll p -> snd (lstep sl o) = RErr er ->
      res_is_err (snd (cow_step bstep lstep (sb, sl, tbl) o)) = true /\
      same_view vb vl (sb, sl, tbl) (fst (cow_step bstep lstep (sb, sl, tbl) o))) /\
-  (forall p perm fi, snd (bstep sb (Stat p)) = RInfo fi -> fi_dir fi = true ->
-     snd (cow_step bstep lstep (sb, sl, tbl) (Mkdir p perm)) = RErr (E KExist) /\
+  (forall p perm, is_info (snd (cow_step bstep lstep (sb, sl, tbl) (Stat p))) = true ->
+     snd (cow_step bstep lstep (sb, sl, tbl) (Mkdir p perm)) = RErr (EW KExist) /\
      same_view vb vl (sb, sl, tbl) (fst (cow_step bstep lstep (sb, sl, tbl) (Mkdir p perm)))).
 Proof. exact @cow_refusals_view. Qed.
 Print Assumptions C06_failed_call_view_unchanged_partial.
 
-(* the exact outcome for the two most common refusals *)
+(* the exact outcome for the most common refusals *)
 Theorem C06_rename_base_only_eperm :
   forall (B L : Type) (bstep : B -> op -> B * res) (lstep : L -> op -> L * res) sb sl tbl p q sl1 r sb1 fi,
   lstep sl (Stat p) = (sl1, r) -> is_info r = false -> bstep sb (Stat p) = (sb1, RInfo fi) ->
@@ -276,6 +285,22 @@ Theorem C06_remove_base_only_eperm :
   cow_step bstep lstep (sb, sl, tbl) (Remove p) = ((sb1, sl1, tbl), RErr (E KEPERM)).
 Proof. exact @cow_remove_base_only. Qed.
 Print Assumptions C06_remove_base_only_eperm.
+
+(* Mkdir: the exact outcome in the two ways the union's Stat can find the name *)
+Theorem C06_mkdir_overlay_entry_eexist :
+  forall (B L : Type) (bstep : B -> op -> B * res) (lstep : L -> op -> L * res) sb sl tbl p perm sl1 fi,
+  lstep sl (Stat p) = (sl1, RInfo fi) ->
+  cow_step bstep lstep (sb, sl, tbl) (Mkdir p perm) = ((sb, sl1, tbl), RErr (EW KExist)).
+Proof. exact @cow_mkdir_overlay_entry. Qed.
+Print Assumptions C06_mkdir_overlay_entry_eexist.
+
+Theorem C06_mkdir_base_entry_eexist :
+  forall (B L : Type) (bstep : B -> op -> B * res) (lstep : L -> op -> L * res) sb sl tbl p perm sl1 r sb1 fi,
+  lstep sl (Stat p) = (sl1, r) -> is_info r = false -> cow_is_not_exist (err_of r) = true ->
+  bstep sb (Stat p) = (sb1, RInfo fi) ->
+  cow_step bstep lstep (sb, sl, tbl) (Mkdir p perm) = ((sb1, sl1, tbl), RErr (EW KExist)).
+Proof. exact @cow_mkdir_base_dir. Qed.
+Print Assumptions C06_mkdir_base_entry_eexist.
 
 (* ---- non-vacuity ---- *)
 Definition p_d : str := [47;100]%N.               (* /d   *)
@@ -326,13 +351,13 @@ Example C06_ex_write_read_back_and_pages :
 Proof. vm_compute. reflexivity. Qed.
 
 (* Readdirnames(-1) lists each of f, g, h once and leaves nothing; refusals: Rename and Remove of
-   the base-only /d/g, Mkdir of /d *)
+   the base-only /d/g, Mkdir of /d (in both) and of the base-only FILE /d/g *)
 Example C06_ex_listing_and_refusals :
   snd (run_steps (cow_step m_step m_step) (c06_base, c06_layer, [])
     [Open p_d; HReaddirnames 0 (-1); HReaddirnames 0 (-1); HReaddirnames 0 3;
-     Rename p_g [47;120]%N; Remove p_g; Mkdir p_d 493])
+     Rename p_g [47;120]%N; Remove p_g; Mkdir p_d 493; Mkdir p_g 493])
   = [RHandle 0; RNames [[104]; [102]; [103]]%N None; RNames [] None; RNames [] (Some (E KEOF));
-     RErr (E KEPERM); RErr (EW KNotExist); RErr (E KExist)].
+     RErr (E KEPERM); RErr (EW KNotExist); RErr (EW KExist); RErr (EW KExist)].
 Proof. vm_compute. reflexivity. Qed.
 
 Example C06_ex_merge :
